@@ -36,8 +36,8 @@ NOT_RESTRICT_NAMES = {"RegressionTreeBasedAL[representativity]"}
 NOT_PERMUTE_NAMES = {"QueryByCommittee[vote_entropy]", "CostEmbeddingAL", "ExpectedModelChangeMaximization"}
 
 
-def run(spec, data, cand, b, seed):
-    r = _pool.run_query(spec, data, cand, b, seed)
+def run(spec, data, cand, b, seed, qs=None):
+    r = _pool.run_query(spec, data, cand, b, seed, qs=qs)
     if r["err"]:
         return None, None, r["err"]
     return np.asarray(r["q"]).ravel(), np.asarray(r["U"], dtype=float), None
@@ -118,7 +118,12 @@ def relations(ctx, per_spec):
             b = rng.choice([1, 1, 2])
             case = dict(spec=spec.name, n=n, flavour=flavour, b=b, seed=seed, X=data["X"], y=data["y"], y_true=data["y_true"])
             # --- (b) representation equivalence ----------------------------------------------
-            qn, Un, e1 = run(spec, data, None, b, seed)
+            # half of the time ONE strategy object answers all addressings of this pool (state kept between calls must
+            # not make the addressings disagree); otherwise a fresh object per call
+            shared = spec.make(seed) if rng.random() < 0.5 else None
+            case["one_object"] = shared is not None
+            ctx.count("repr_one_object" if shared is not None else "repr_fresh_objects")
+            qn, Un, e1 = run(spec, data, None, b, seed, qs=shared)
             # the unlabeled indices designate a *set*: half of the time they are handed over in another order
             # and / or with repeated entries
             idx_arg = unl.copy()
@@ -129,7 +134,7 @@ def relations(ctx, per_spec):
                     idx_arg = np.concatenate([idx_arg, idx_arg[: rng.randint(1, 2)]])
                 ctx.count("repr_indices_unsorted_or_repeated")
             case["idx_arg"] = idx_arg.tolist()
-            qi, Ui, e2 = run(spec, data, idx_arg.copy(), b, seed)
+            qi, Ui, e2 = run(spec, data, idx_arg.copy(), b, seed, qs=shared)
             ctx.case((spec.name, "repr", n, seed), len(unl) >= 3, sample=dict(summary(case), relation="None vs indices vs rows",
                                                                               picks_none=None if qn is None else qn.tolist(), picks_idx=None if qi is None else qi.tolist()))
             if e1 or e2:
@@ -145,7 +150,7 @@ def relations(ctx, per_spec):
                                 f"{spec.name}: unique best candidate but different selection for None vs indices", dict(case, relation="none-vs-idx"))
                 ctx.count("repr_none_idx_compared")
                 if spec.rows:
-                    qr, Ur, e3 = run(spec, data, data["X"][unl].copy(), b, seed)
+                    qr, Ur, e3 = run(spec, data, data["X"][unl].copy(), b, seed, qs=shared)
                     if e3:
                         ctx.count("repr_rows_raised")
                     else:
@@ -161,8 +166,8 @@ def relations(ctx, per_spec):
             # --- (c) restriction -------------------------------------------------------------------
             if len(unl) >= 3 and spec.cls not in NOT_RESTRICT and spec.name not in NOT_RESTRICT_NAMES:
                 S = np.array(sorted(rng.sample(list(unl), rng.randint(1, len(unl) - 1))))
-                qs_, Us, e = run(spec, data, S, 1, seed)
-                qf, Uf, e2 = run(spec, data, unl.copy(), 1, seed)
+                qs_, Us, e = run(spec, data, S, 1, seed, qs=shared)
+                qf, Uf, e2 = run(spec, data, unl.copy(), 1, seed, qs=shared)
                 ctx.case((spec.name, "restrict", n, seed), True, sample=dict(summary(case), relation="restriction", subset=S.tolist()))
                 if not (e or e2):
                     if not close(Us[0][S], Uf[0][S]):
@@ -203,18 +208,26 @@ def replay(payload):
     data = dict(X=arr(r["X"]), y=arr(r["y"]), y_true=arr(r["y_true"]))
     unl = np.flatnonzero(np.isnan(data["y"]))
     rel = r.get("relation")
+    shared = spec.make(r["seed"]) if r.get("one_object") else None
     if rel == "none-vs-idx":
-        _, A, _ = run(spec, data, None, r["b"], r["seed"])
-        _, B, _ = run(spec, data, np.array(r.get("idx_arg", unl.tolist())), r["b"], r["seed"])
+        _, A, _ = run(spec, data, None, r["b"], r["seed"], qs=shared)
+        _, B, _ = run(spec, data, np.array(r.get("idx_arg", unl.tolist())), r["b"], r["seed"], qs=shared)
         bad = not np.array_equal(A[:1], B[:1], equal_nan=True)
     elif rel == "rows-vs-idx":
-        _, A, _ = run(spec, data, data["X"][unl].copy(), r["b"], r["seed"])
-        _, B, _ = run(spec, data, unl.copy(), r["b"], r["seed"])
+        if shared is not None:
+            run(spec, data, None, r["b"], r["seed"], qs=shared)
+        _, B, _ = run(spec, data, np.array(r.get("idx_arg", unl.tolist())), r["b"], r["seed"], qs=shared)
+        _, A, _ = run(spec, data, data["X"][unl].copy(), r["b"], r["seed"], qs=shared)
         bad = not close(A[0], B[0][unl])
     elif rel == "restriction":
         S = np.array(r["subset"])
-        _, A, _ = run(spec, data, S, 1, r["seed"])
-        _, B, _ = run(spec, data, unl.copy(), 1, r["seed"])
+        if shared is not None:   # the recorded run had answered None / indices (/ rows) on this object before
+            run(spec, data, None, r["b"], r["seed"], qs=shared)
+            run(spec, data, np.array(r.get("idx_arg", unl.tolist())), r["b"], r["seed"], qs=shared)
+            if spec.rows:
+                run(spec, data, data["X"][unl].copy(), r["b"], r["seed"], qs=shared)
+        _, A, _ = run(spec, data, S, 1, r["seed"], qs=shared)
+        _, B, _ = run(spec, data, unl.copy(), 1, r["seed"], qs=shared)
         bad = not close(A[0][S], B[0][S])
         print("subset utilities:", A[0][S], "full:", B[0][S])
     else:
